@@ -1,8 +1,14 @@
-import PnVerif.Base.FV
-import PnVerif.Base.FVLemmas
-import PnVerif.Spec.ConvSpec
-import PnVerif.Gen.Ncx
-import PnVerif.Gen.NcxProofs
-import PnVerif.Gen.NcxTable
-import PnVerif.Model.ConvLoop
+-- root of the library: the property files of every registered check (each imports its models/lemmas)
+import PnVerif.Props.C01
+import PnVerif.Props.C06
+import PnVerif.Props.C07
 import PnVerif.Props.C09
+import PnVerif.Props.C10
+import PnVerif.Props.C12
+import PnVerif.Props.C15
+import PnVerif.Props.C16
+import PnVerif.Props.C17
+import PnVerif.Props.C18
+import PnVerif.Spec.Dataset
+import PnVerif.Gen.NcxTable
+import PnVerif.Gen.Consts
